@@ -4,6 +4,7 @@ package main
 import (
 	"crypto"
 	"crypto/ecdsa"
+	"encoding/asn1"
 	"fmt"
 	"io"
 	"math/big"
@@ -92,7 +93,11 @@ func buildPKI() (*pki, error) {
 		}
 		add := func(s *scenario) {
 			s.IssuerKey, s.Issuer, s.IssRef = ik, iss, ref
-			s.MustAcc = s.Positive && keyKind(ik) != "ed"
+			// the only waiver: a response signed directly by an Ed25519 issuer key
+			// (the package has no Ed25519 response signatures; the statement is
+			// "accepts only if", so refusing it is not a violation). Responses
+			// delegated by an Ed25519 issuer to an RSA/ECDSA responder must be accepted.
+			s.MustAcc = s.Positive && !(s.Kind == "issuer" && keyKind(ik) == "ed")
 			s.FaultSet = quickFault[s.ID]
 			rr, err := newIssuerRef(s.Responder.DER)
 			if err != nil {
@@ -138,10 +143,12 @@ type content struct {
 	Times  int `json:"times"`  // index into time shapes
 	Hash   int `json:"hash"`   // index into hashAlts
 	Serial int `json:"serial"` // index into serialAlts
-	Ext    int `json:"ext"`    // 0 none, 1 non-critical, 2 critical
+	Ext    int `json:"ext"`    // 0 none, 1 non-critical, 2 critical, 3 two non-critical
 }
 
-var contentDims = []int{6, 4, 5, 3, 3}
+// contentDims bounds the IN-DOMAIN product; statusAlts, hashAlts and serialAlts
+// continue past these bounds with the out-of-domain alternatives (see domainAlts).
+var contentDims = []int{6, 4, 5, 3, 4}
 
 func (c content) get(d int) int {
 	return []int{c.Status, c.Times, c.Hash, c.Serial, c.Ext}[d]
@@ -181,11 +188,52 @@ func allContents(maxDev int) []content {
 	return out
 }
 
-var statusAlts = []struct{ Status, Reason int }{
-	{ocsp.Good, 0}, {ocsp.Unknown, 0}, {ocsp.Revoked, 0}, {ocsp.Revoked, 1}, {ocsp.Revoked, 6}, {ocsp.Revoked, 10},
+var statusAlts = []struct {
+	Status, Reason int
+	ZeroAt         bool // RevokedAt left at the zero time
+}{
+	{ocsp.Good, 0, false}, {ocsp.Unknown, 0, false}, {ocsp.Revoked, 0, false}, {ocsp.Revoked, 1, false}, {ocsp.Revoked, 6, false}, {ocsp.Revoked, 10, false},
+	// out of the documented domain
+	{ocsp.ServerFailed, 0, false}, {-1, 0, false}, {ocsp.Revoked, 0, true}, {ocsp.Revoked, 1, true},
 }
-var hashAlts = []crypto.Hash{crypto.SHA1, crypto.SHA256, crypto.SHA384, crypto.SHA512, 0}
-var serialAlts = []*big.Int{big.NewInt(1), new(big.Int).Lsh(big.NewInt(1), 70), big.NewInt(128)}
+var hashAlts = []crypto.Hash{crypto.SHA1, crypto.SHA256, crypto.SHA384, crypto.SHA512, 0,
+	crypto.MD5, crypto.SHA224}
+var serialAlts = []*big.Int{big.NewInt(1), new(big.Int).Lsh(big.NewInt(1), 70), big.NewInt(128),
+	nil, big.NewInt(-1), big.NewInt(0)}
+
+// Template values outside the documented domain of CreateResponse ("Status is
+// one of {Good, Revoked, Unknown}", "Valid values [of IssuerHash] are
+// crypto.SHA1, crypto.SHA256, crypto.SHA384, and crypto.SHA512", a serial
+// number). mustErr: nothing faithful can be produced, an error is demanded.
+// Otherwise: an error OR a well-formed, faithful round trip.
+type domainAlt struct {
+	C       content
+	Label   string
+	MustErr bool
+}
+
+var domainAlts = []domainAlt{
+	{content{Status: 6}, "Status ServerFailed(3), not one of Good/Revoked/Unknown", true},
+	{content{Status: 7}, "Status -1, not one of Good/Revoked/Unknown", true},
+	{content{Status: 8}, "Revoked with zero RevokedAt, reason 0", false},
+	{content{Status: 9}, "Revoked with zero RevokedAt, reason 1", false},
+	{content{Hash: 5}, "IssuerHash MD5, not a documented value", true},
+	{content{Hash: 6}, "IssuerHash SHA-224, not a documented value", true},
+	{content{Serial: 3}, "nil SerialNumber", true},
+	{content{Serial: 4}, "negative SerialNumber", false},
+	{content{Serial: 5}, "zero SerialNumber", false},
+}
+
+// domainOf returns the out-of-domain alternative a content uses, if any.
+func domainOf(c content) *domainAlt {
+	for i := range domainAlts {
+		d := &domainAlts[i]
+		if (d.C.Status != 0 && c.Status == d.C.Status) || (d.C.Hash != 0 && c.Hash == d.C.Hash) || (d.C.Serial != 0 && c.Serial == d.C.Serial) {
+			return d
+		}
+	}
+	return nil
+}
 
 func timesOf(shape int) (this, next, revoked time.Time) {
 	this = fx.T0.Add(-time.Hour)
@@ -208,6 +256,14 @@ func timesOf(shape int) (this, next, revoked time.Time) {
 
 var oidExtNonCrit = zasn1.ObjectIdentifier{1, 3, 6, 1, 4, 1, 99999, 13, 1}
 var oidExtCrit = zasn1.ObjectIdentifier{1, 3, 6, 1, 4, 1, 99999, 13, 2}
+var oidExtNonCrit2 = zasn1.ObjectIdentifier{1, 3, 6, 1, 4, 1, 99999, 13, 3}
+
+func copyInt(n *big.Int) *big.Int {
+	if n == nil {
+		return nil
+	}
+	return new(big.Int).Set(n)
+}
 
 // tmpl identifies one CreateResponse call.
 type tmpl struct {
@@ -226,13 +282,16 @@ func (t tmpl) build(sc *scenario) (ocsp.Response, refSingle) {
 	this, next, rev := timesOf(t.C.Times)
 	r := ocsp.Response{
 		Status:             st.Status,
-		SerialNumber:       new(big.Int).Set(serialAlts[t.C.Serial]),
+		SerialNumber:       copyInt(serialAlts[t.C.Serial]),
 		ThisUpdate:         this,
 		NextUpdate:         next,
 		RevokedAt:          rev,
 		RevocationReason:   crl.RevocationReasonCode(st.Reason),
 		IssuerHash:         hashAlts[t.C.Hash],
 		SignatureAlgorithm: x509.SignatureAlgorithm(t.SigAlg),
+	}
+	if st.ZeroAt {
+		r.RevokedAt, rev = time.Time{}, time.Time{}
 	}
 	if st.Status != ocsp.Revoked {
 		// must be ignored for good/unknown
@@ -243,6 +302,9 @@ func (t tmpl) build(sc *scenario) (ocsp.Response, refSingle) {
 		r.ExtraExtensions = []pkix.Extension{{Id: oidExtNonCrit, Critical: false, Value: []byte{0x05, 0x00}}}
 	case 2:
 		r.ExtraExtensions = []pkix.Extension{{Id: oidExtCrit, Critical: true, Value: []byte{0x01, 0x01, 0xff}}}
+	case 3:
+		r.ExtraExtensions = []pkix.Extension{{Id: oidExtNonCrit2, Critical: false, Value: []byte{0x04, 0x03, 0x01, 0x02, 0x03}},
+			{Id: oidExtNonCrit, Critical: false, Value: []byte{0x05, 0x00}}}
 	}
 	if sc.Embed != nil {
 		r.Certificate = sc.Embed.X
@@ -263,6 +325,10 @@ func (t tmpl) build(sc *scenario) (ocsp.Response, refSingle) {
 	if st.Status == ocsp.Revoked {
 		want.RevokedAt = rev
 		want.Reason = st.Reason
+	}
+	// the singleExtensions a faithful encoder writes, in template order
+	for _, e := range r.ExtraExtensions {
+		want.Exts = append(want.Exts, sExt{ID: asn1.ObjectIdentifier(e.Id), Critical: e.Critical, Value: e.Value})
 	}
 	return r, want
 }
